@@ -165,7 +165,7 @@ def shards(tier):
 
 
 def run_shard(spec, ctx):
-    run_given(cases(), body, ctx, ctx.pick(190, 400))
+    run_given(cases(), body, ctx, ctx.pick(190, 1500))
 
 
 def replay(data, col):
